@@ -42,7 +42,7 @@ EXTENDS AmlNsBase
 CONSTANT Devs
 DevAll == {"IndexFieldNamed", "AliasKeepsSourceName", "ExternalIsObject", "CreateFieldNotNamed", "PackageMethodRefInvoked",
            "VarPackageCountByte", "MatchOperatorBytes", "LoadTableSevenOperands", "IfBodyFlattened", "RelPathInTerm",
-           "ValueNamesFromFinalPlace"}
+           "ValueNamesFromFinalPlace", "EmptyBufferInDeferred"}
 \* A  IndexField is flagged "named" in the opcode table: the container gets the LAST SEGMENT OF THE INDEX NAME as its name and is
 \*    relocated like a declaration of that name; the units keep only that last segment as their index name.  The units themselves
 \*    land where ACPI says.  B: the container must not shadow the real index field (written in the scope where that field lives).
@@ -78,9 +78,14 @@ Dev_IfBodyFlattened         == "IfBodyFlattened" \in Devs
 \* A  a relative name with several segments that is an operand / package element is looked up among the children of its PARENT NODE
 \*    and stays unresolved.  B: the same in a deferred block or as an invocation (table rejected / arguments left behind).
 Dev_RelPathInTerm           == "RelPathInTerm" \in Devs
-\* B  names inside the value of a declaration are resolved from the place where the object LANDS, not from the scope where it is
-\*    written: values with names only in declarations that are written where they land.
+\* A  names inside the value of a declaration are resolved from the place where the object LANDS, not from the scope where it is
+\*    written (st.lex remembers the latter).  B: invocations and Buffer lengths in the value of a declaration that is not written
+\*    where it lands (the table may be rejected).
 Dev_ValueNamesFromFinalPlace == "ValueNamesFromFinalPlace" \in Devs
+\* B  a Buffer with an EMPTY initializer list that is read inside another deferred package (While predicate or body, BankField value,
+\*    the length of another Buffer) takes the bytes that follow it, up to the end of that package, as its contents: its own
+\*    package end is popped as soon as its length has been read.
+Dev_EmptyBufferInDeferred   == "EmptyBufferInDeferred" \in Devs
 
 (* ------------------------------------------------------------------ operators of the grammar *)
 \* operand kinds as the parser's opcode table lists them: T TermArg, N SuperName/SimpleName/NameString, G Target, B/W/D byte/word/dword data
@@ -243,6 +248,7 @@ RelRef(x, ctx) == \E y \in TermsOf(x) : (y.t = "call" \/ (y.t = "ref" /\ ctx = "
 \* D7 (same root: a package end that is never popped): in a deferred block a Buffer / Package / VarPackage that is read as an ARGUMENT
 \* OF AN INVOCATION leaves its package end behind; the next argument or statement is not read (table rejected)
 PkgArgInDeferred(x) == \E y \in TermsOf(x) : y.t = "call" /\ \E i \in 1..Len(y.a) : y.a[i].t \in {"buffer", "package", "varpackage"}
+EmptyBuf(x) == \E y \in TermsOf(x) : y.t = "buffer" /\ y.n = <<>>
 \* triggers of one term x read in scope cur (ctx flat/strict; stmt: x is a whole statement or declaration value)
 TermTrigX(st, cur, x, ctx) ==
   LET v == Vis(st) IN
@@ -250,6 +256,7 @@ TermTrigX(st, cur, x, ctx) ==
   \cup (IF ctx = "strict" /\ XD6obj(x) THEN {"D6"} ELSE {})
   \cup (IF (ctx = "strict" /\ PkgArgInDeferred(x)) \/ \E b \in BufLens(x) : PkgArgInDeferred(b) THEN {"D7"} ELSE {})
   \cup (IF ctx = "flat" /\ \E b \in BufLens(x) : XD6top(b) THEN {"D6"} ELSE {})
+  \cup (IF Dev_EmptyBufferInDeferred /\ ((ctx = "strict" /\ EmptyBuf(x)) \/ \E b \in BufLens(x) : EmptyBuf(b)) THEN {"EmptyBufferInDeferred"} ELSE {})
   \cup (IF Dev_LoadTableSevenOperands /\ UsesLoadTable(x) THEN {"LoadTableSevenOperands"} ELSE {})
   \cup (IF Dev_MatchOperatorBytes /\ BadMatch(x, ctx) THEN {"MatchOperatorBytes"} ELSE {})
   \cup (IF Dev_VarPackageCountByte /\ BadVarPkg(x) THEN {"VarPackageCountByte"} ELSE {})
@@ -272,23 +279,23 @@ LateTrig(st, it) ==
   UNION { LET x == it.x[i]
               calls == {y \in TermsOf(x) : y.t = "call"}
               refs  == {y \in TermsOf(x) : y.t = "ref"} IN
-          (IF \E y \in calls : Lookup(v, it.cur, y.f) # Target(st.ns, Lookup(st.ns, it.cur, y.f)) THEN {"InvisibleCallee"} ELSE {})
-          \cup (IF Dev_PackageMethodRefInvoked /\ \E y \in PkgRefs(x) : LET p == Lookup(v, it.cur, y.f) IN
+          (IF \E y \in calls : Lookup(v, it.rc, y.f) # Target(st.ns, Lookup(st.ns, it.cur, y.f)) THEN {"InvisibleCallee"} ELSE {})
+          \cup (IF Dev_PackageMethodRefInvoked /\ \E y \in PkgRefs(x) : LET p == Lookup(v, it.rc, y.f) IN
                       p # None /\ Obj(v, p).kind = "Method" /\ Obj(v, p).args[1].n[1] % 8 # 0 THEN {"PackageMethodRefInvoked"} ELSE {})
-          \cup (IF \E y \in refs : LET p == Lookup(v, it.cur, y.f) IN p # None /\ Has(v, p) /\ Obj(v, p).kind = "Method" /\ y \notin PkgRefs(x)
+          \cup (IF \E y \in refs : LET p == Lookup(v, it.rc, y.f) IN p # None /\ Has(v, p) /\ Obj(v, p).kind = "Method" /\ y \notin PkgRefs(x)
                 THEN {"MethodAsRef"} ELSE {})
           \* (kind B of Dev_CreateFieldNotNamed / Dev_AliasKeepsSourceName) a created field or alias name used inside a deferred block
-          \cup (IF \E y \in StrictLooked(x, it.ctx = "strict") : Lookup(v, it.cur, y.f) = None THEN {"HiddenNameInDeferred"} ELSE {})
+          \cup (IF \E y \in StrictLooked(x, it.ctx = "strict") : Lookup(v, it.rc, y.f) = None THEN {"HiddenNameInDeferred"} ELSE {})
           \* the units of a BankField come into being only when the deferred pass reaches it: a deferred block that is read earlier and
           \* names one of them rejects the table (conservative: any BankField unit of the table that is being loaded)
-          \cup (IF \E y \in StrictLooked(x, it.ctx = "strict") : Lookup(v, it.cur, y.f) \in st.late THEN {"BankFieldUnitInDeferred"} ELSE {})
+          \cup (IF \E y \in StrictLooked(x, it.ctx = "strict") : Lookup(v, it.rc, y.f) \in st.late THEN {"BankFieldUnitInDeferred"} ELSE {})
         : i \in 1..Len(it.x) }
 (* ------------------------------------------------------------------ the loader *)
 \* st of AmlNs plus: xs (see Vis), items (everything of this table that has to be rendered at its end, in token order:
 \*   [own (path of the method / scope a body token belongs to, None for declaration values), cur, k, x, ctx]),
 \*   bodies / calls of finished tables (rendered), xstk (parallel to stack: [strict, flatif, early, sealed]), locals
 S0X == [ns |-> Predef, names |-> {}, displaced |-> {}, stack |-> <<>>, pend |-> <<>>, calls |-> <<>>, tab |-> 1, trig |-> {}, err |-> <<>>,
-        xs |-> {}, exts |-> {}, items |-> <<>>, bodies |-> <<>>, xstk |-> <<>>, locals |-> {}, d |-> 0, late |-> {}]
+        xs |-> {}, exts |-> {}, items |-> <<>>, bodies |-> <<>>, xstk |-> <<>>, locals |-> {}, d |-> 0, late |-> {}, reloc |-> {}, lex |-> {}]
 TopX(st)    == Last(st.xstk)
 Strict(st)  == st.xstk # <<>> /\ TopX(st).strict
 Ctx(st)     == IF Strict(st) THEN "strict" ELSE "flat"
@@ -297,7 +304,7 @@ RECURSIVE OwnerFrom(_, _)
 OwnerFrom(stack, i) == IF i = 0 THEN None ELSE IF stack[i].t = "method" THEN stack[i].p ELSE OwnerFrom(stack, i - 1)
 Owner(st) == IF InMethod(st) THEN OwnerFrom(st.stack, Len(st.stack)) ELSE Cur(st)
 LocalsOf(st) == {l.n : l \in {y \in st.locals : y.m = Owner(st)}}
-Item(st, k, x, ctx) == [own |-> Owner(st), cur |-> Cur(st), k |-> k, x |-> x, ctx |-> ctx]
+Item(st, k, x, ctx) == [own |-> Owner(st), cur |-> Cur(st), rc |-> Cur(st), k |-> k, x |-> x, ctx |-> ctx]
 AddItem(st, it) == [st EXCEPT !.items = Append(@, it)]
 AddTrig(st, T) == [st EXCEPT !.trig = @ \cup T]
 
@@ -308,7 +315,7 @@ CompleteAt(st, i) ==
   IF i = 0 THEN st
   ELSE LET f == st.xstk[i] IN
        IF f.flatif /\ ~f.early /\ Dev_IfBodyFlattened
-       THEN CompleteAt([st EXCEPT !.xstk[i].early = TRUE, !.items = Append(@, [own |-> Owner(st), cur |-> Cur(st), k |-> "close", x |-> <<>>, ctx |-> "flat"])], i - 1)
+       THEN CompleteAt([st EXCEPT !.xstk[i].early = TRUE, !.items = Append(@, [own |-> Owner(st), cur |-> Cur(st), rc |-> Cur(st), k |-> "close", x |-> <<>>, ctx |-> "flat"])], i - 1)
        ELSE st
 \* D7 made precise: inside a deferred block everything that follows a nested block (up to the end of the outermost deferred block)
 \* is lost: the package end of the nested block is never popped.  A frame is sealed when a block nested in it has been closed.
@@ -344,7 +351,7 @@ CloseBlock(st) ==
   LET top == Last(st.stack)
       fx  == TopX(st)
       n   == Len(st.stack)
-      cl  == [own |-> Owner(st), cur |-> Cur(st), k |-> "close", x |-> <<>>, ctx |-> "flat"]
+      cl  == [own |-> Owner(st), cur |-> Cur(st), rc |-> Cur(st), k |-> "close", x |-> <<>>, ctx |-> "flat"]
       s1  == [st EXCEPT !.stack = Front(@), !.xstk = Front(@), !.trig = @ \cup (IF EmptyIfBody(st) THEN {"D9"} ELSE {})]
       seal(s) == IF n > 1 /\ s.xstk[n - 1].strict THEN [s EXCEPT !.xstk[n - 1].sealed = TRUE] ELSE s IN
   IF top.t \notin {"if", "else", "while"} THEN s1
@@ -356,16 +363,21 @@ CloseBlock(st) ==
        IF fx.early THEN seal(s2) ELSE CompleteAt(seal(s2), n - 1)
 
 \* declarations that carry a value with names: the value waits for the end of the table
-ValueItem(st, xs, ctx) == [own |-> None, cur |-> Cur(st), k |-> "decl", x |-> xs, ctx |-> ctx]
+\* cur: the scope the value is written in (well-formedness); rc: the scope its names are resolved from when it is rendered
+ValueItem(st, rc, xs, ctx) == [own |-> None, cur |-> Cur(st), rc |-> rc, k |-> "decl", x |-> xs, ctx |-> ctx]
 HasNames(xs) == \E i \in 1..Len(xs) : NamesInX(xs[i]) # {}
-InPlace(st, t) == SingleSeg(t.f)
+HasCallOrLen(xs) == \E i \in 1..Len(xs) : \E y \in TermsOf(xs[i]) : y.t = "call" \/ (y.t = "buffer" /\ NamesInX(y.a[1]) # {})
 DeclX(st, t, kind, args, ctx) ==
-  LET s1 == Declare(st, t, kind, args, "") IN
+  LET s1 == Declare(st, t, kind, args, "")
+      p == DeclPath(st.ns, Cur(st), t.f)
+      away == Front(p) # Cur(st)                                       \* not written where it lands
+      from == IF Dev_ValueNamesFromFinalPlace THEN Front(p) ELSE Cur(st) IN
   IF s1.err # <<>> THEN s1
   ELSE IF \E i \in 1..Len(args) : ~TermWF(args[i]) THEN Fail(st, <<"malformed value", t>>)
-  ELSE AddItem(AddTrig(s1, UNION {TermTrigX(st, Cur(st), args[i], ctx) : i \in 1..Len(args)}
-                           \cup (IF HasNames(args) /\ ~InPlace(st, t) /\ Dev_ValueNamesFromFinalPlace THEN {"ValueNamesFromFinalPlace"} ELSE {})),
-               ValueItem(st, args, ctx))
+  ELSE AddItem([AddTrig(s1, UNION {TermTrigX(st, Cur(st), args[i], ctx) : i \in 1..Len(args)}
+                            \cup (IF away /\ HasCallOrLen(args) /\ Dev_ValueNamesFromFinalPlace THEN {"ValueNamesFromFinalPlace"} ELSE {}))
+                 EXCEPT !.lex = @ \cup {[p |-> p, cur |-> from]}],
+               ValueItem(st, from, args, ctx))
 
 \* IndexField / BankField: units like Field (enclosing scope, running offsets); the unit remembers its container
 UnitsX(t, cur, tag, extra) ==
@@ -389,7 +401,8 @@ IndexField(st, t) ==
       place == DeclPath(st.ns, Cur(st), t.f)                        \* Dev_IndexFieldNamed: where the container node lands
       fshown == IF Dev_IndexFieldNamed /\ HasPathX(t.f) THEN LastSegForm(t.f) ELSE t.f
       us == UnitsX([t EXCEPT !.f = fshown], Cur(st), "iunit", [g |-> t.g])
-      trg == FormTrig(st, t.f, Front(t.f.segs)) \cup (IF Dev_IndexFieldNamed /\ place # ip THEN {"IndexFieldNamed"} ELSE {})
+      \* B: the container must land beside the real index field and after it: not when that field is itself waiting for relocation
+      trg == FormTrig(st, t.f, Front(t.f.segs)) \cup (IF Dev_IndexFieldNamed /\ (place # ip \/ ip \in st.reloc) THEN {"IndexFieldNamed"} ELSE {})
       s1 == DeclUnits(st, t, us, trg) IN
   IF ip = None \/ dp = None \/ ~Has(st.ns, ip) \/ ~Has(st.ns, dp) \/ Obj(st.ns, ip).kind # "NamedField" \/ Obj(st.ns, dp).kind # "NamedField"
   THEN Fail(st, <<"IndexField names do not designate field units", t>>)
@@ -408,7 +421,7 @@ BankField(st, t) ==
   ELSE IF s1.err # <<>> THEN s1
   ELSE AddItem([s1 EXCEPT !.late = @ \cup {us[i].p : i \in 1..Len(us)}, !.xs = @ \cup {[p |-> Cur(st), kind |-> "BankField",
                                           args |-> <<AsName(t.f), AsName(t.g), t.x[1], [t |-> "byte", n |-> <<t.flags>>]>>]}],
-               ValueItem(st, t.x, "strict"))
+               ValueItem(st, Cur(st), t.x, "strict"))
 \* Field over a DataRegion is a Field: AmlNs!DeclField does not look the region up
 
 Alias(st, t) ==
@@ -416,7 +429,11 @@ Alias(st, t) ==
       place == DeclPath(st.ns, Cur(st), t.g)
       tt == [t EXCEPT !.k = "decl"]
       s1 == Declare(st, tt, "Alias", <<[t |-> "aref", f |-> t.g, p |-> Target(st.ns, sp)]>>, "")
-      trg == FormTrig(st, t.g, Front(t.g.segs)) \cup (IF Dev_AliasKeepsSourceName /\ place # sp THEN {"AliasKeepsSourceName"} ELSE {}) IN
+      \* B: the Alias node must land beside its source and after it (not when the source is itself waiting for relocation), and
+      \* while it waits for its own relocation it must not hide a scope from the Scope directives of the first pass
+      trg == FormTrig(st, t.g, Front(t.g.segs))
+             \cup (IF Dev_AliasKeepsSourceName /\ (place # sp \/ sp \in st.reloc \/ (Displaces(st, place) /\ IsScope(st.ns, sp)))
+                   THEN {"AliasKeepsSourceName"} ELSE {}) IN
   IF sp = None \/ ~Has(st.ns, sp) THEN Fail(st, <<"Alias source does not exist", t>>)
   ELSE IF s1.err # <<>> THEN s1
   ELSE IF ~Dev_AliasKeepsSourceName THEN AddTrig(s1, trg)
@@ -436,7 +453,7 @@ External(st, t) ==
 \* CreateXField(source, index[, bits], name): a statement; at scope level it also declares a buffer field
 CreateField(st, t) ==
   LET x == [t |-> "op", s |-> t.kind, a |-> t.x \o <<[t |-> "ref", f |-> t.f]>>]    \* rendered by hand below: the name is never looked up
-      stm == [own |-> Owner(st), cur |-> Cur(st), k |-> "cfield", x |-> t.x, ctx |-> Ctx(st), kind |-> t.kind, f |-> t.f]
+      stm == [own |-> Owner(st), cur |-> Cur(st), rc |-> Cur(st), k |-> "cfield", x |-> t.x, ctx |-> Ctx(st), kind |-> t.kind, f |-> t.f]
       trg == UNION {TermTrigX(st, Cur(st), t.x[i], Ctx(st)) : i \in 1..Len(t.x)} \cup SealedTrig(st)
              \cup (IF Strict(st) /\ \E i \in 1..Len(t.x) : XD6top(t.x[i]) THEN {"D6"} ELSE {}) IN
   IF t.kind \notin CreateKinds \/ Len(t.x) # (IF t.kind = "CreateField" THEN 3 ELSE 2) \/ \E i \in 1..Len(t.x) : ~TermWF(t.x[i])
@@ -451,8 +468,8 @@ CreateField(st, t) ==
 \* end of a table: everything recorded is checked and rendered against the namespace as it is NOW
 RenItem(st, it) ==
   LET v == Vis(st) IN
-  CASE it.k = "cfield" -> [k |-> "stmt", x |-> <<[t |-> "op", s |-> it.kind, a |-> RenSeq(v, st.ns, it.cur, it.x, it.ctx) \o <<AsName(it.f)>>]>>]
-    [] it.k \in {"stmt", "if", "while"} -> [k |-> it.k, x |-> RenSeq(v, st.ns, it.cur, it.x, it.ctx)]
+  CASE it.k = "cfield" -> [k |-> "stmt", x |-> <<[t |-> "op", s |-> it.kind, a |-> RenSeq(v, st.ns, it.rc, it.x, it.ctx) \o <<AsName(it.f)>>]>>]
+    [] it.k \in {"stmt", "if", "while"} -> [k |-> it.k, x |-> RenSeq(v, st.ns, it.rc, it.x, it.ctx)]
     [] OTHER -> [k |-> it.k]
 ItemOK(st, it) == \A i \in 1..Len(it.x) : TermOKX(st.ns, ExtPseudo(st), it.cur, {l.n : l \in {y \in st.locals : y.m = it.own}}, it.x[i], FALSE)
 EndTableX(st) ==
@@ -460,22 +477,22 @@ EndTableX(st) ==
       body == SelectSeq(st.items, LAMBDA it : it.own # None /\ it.k # "method")
       owners == {st.items[i].own : i \in {j \in 1..Len(st.items) : st.items[j].own # None}}
       ren  == [i \in 1..Len(st.items) |-> IF st.items[i].k \in {"stmt", "if", "while", "decl", "cfield"}
-                                          THEN RenSeq(Vis(st), st.ns, st.items[i].cur, st.items[i].x, st.items[i].ctx) ELSE <<>>]
+                                          THEN RenSeq(Vis(st), st.ns, st.items[i].rc, st.items[i].x, st.items[i].ctx) ELSE <<>>]
       cs   == CallsInSeq([i \in 1..Len(ren) |-> [t |-> "op", s |-> "", a |-> ren[i]]])
       late == UNION {LateTrig(st, st.items[i]) : i \in 1..Len(st.items)} IN
   IF st.stack # <<>> THEN Fail(st, <<"table ends inside a block">>)
   ELSE IF bad # {} THEN Fail(st, <<"name or invocation does not match a declaration", st.items[CHOOSE i \in bad : TRUE]>>)
   ELSE [st EXCEPT !.calls = @ \o [i \in 1..Len(cs) |-> [tab |-> st.tab, p |-> cs[i].p, a |-> cs[i].a]],
                   !.bodies = @ \o [i \in 1..Len(body) |-> [own |-> body[i].own, tok |-> RenItem(st, body[i])]],
-                  !.items = <<>>, !.tab = @ + 1, !.displaced = {}, !.trig = @ \cup late, !.late = {}]
+                  !.items = <<>>, !.tab = @ + 1, !.displaced = {}, !.trig = @ \cup late, !.late = {}, !.reloc = {}]
 
-ApplyX(st, t) ==
+ApplyX0(st, t) ==
   IF st.err # <<>> THEN st
   ELSE CASE t.k \in {"scope", "open", "method"} ->
               LET s1 == Apply(st, t) IN
               IF s1.err # <<>> THEN s1
               ELSE [s1 EXCEPT !.xstk = Append(@, [strict |-> FALSE, flatif |-> FALSE, early |-> FALSE, sealed |-> FALSE]),
-                              !.items = IF t.k = "method" THEN Append(@, [own |-> Cur(s1), cur |-> Cur(s1), k |-> "method", x |-> <<>>, ctx |-> "flat"]) ELSE @,
+                              !.items = IF t.k = "method" THEN Append(@, [own |-> Cur(s1), cur |-> Cur(s1), rc |-> Cur(s1), k |-> "method", x |-> <<>>, ctx |-> "flat"]) ELSE @,
                               !.d = 0]
          [] t.k = "decl" -> IF t.kind \in {"Name", "OpRegion", "DataRegion"} THEN DeclX(st, t, t.kind, t.args, "flat") ELSE Apply(st, t)
          [] t.k = "field"    -> Apply(st, t)
@@ -490,14 +507,22 @@ ApplyX(st, t) ==
          [] t.k = "endtable" -> EndTableX(st)
          [] OTHER -> Fail(st, <<"unknown token", t>>)
 
+\* reloc: objects of the table being loaded whose name is written with a prefix or path: the parser moves them to the END of their
+\* scope in its relocation pass (matters for the order in which same-named nodes are found, see Dev_AliasKeepsSourceName)
+ApplyX(st, t) ==
+  LET s1 == ApplyX0(st, t) IN
+  IF st.err = <<>> /\ s1.err = <<>> /\ t.k \in {"open", "method", "decl"} /\ HasPathX(t.f)
+  THEN [s1 EXCEPT !.reloc = @ \cup {DeclPath(st.ns, Cur(st), t.f)}] ELSE s1
+
 RECURSIVE LoadFromX(_, _, _)
 LoadFromX(st, toks, i) == IF i > Len(toks) THEN st ELSE LoadFromX(ApplyX(st, toks[i]), toks, i + 1)
 LoadX(toks) == LoadFromX(S0X, toks, 1)
 
 (* ------------------------------------------------------------------ what the property demands of a parse result *)
 \* namespace entries as the tree shows them: values rendered from the scope the object lives in
+LexCur(st, p) == LET S == {l \in st.lex : l.p = p} IN IF S = {} THEN Front(p) ELSE (CHOOSE l \in S : TRUE).cur
 RenEntry(st, e) ==
-  LET v == Vis(st)  cur == Front(e.p) IN
+  LET v == Vis(st)  cur == LexCur(st, e.p) IN
   CASE e.kind \in {"Name", "OpRegion", "DataRegion"} -> [e EXCEPT !.args = RenSeq(v, st.ns, cur, e.args, "flat")]
     [] e.kind = "NamedField" /\ e.args[1].t = "bunit" -> [e EXCEPT !.args = <<[e.args[1] EXCEPT !.a = RenSeq(v, st.ns, cur, @, "strict")]>>]
     [] e.kind = "Alias" -> [e EXCEPT !.args = <<[t |-> "ref", p |-> e.args[1].p]>>]
